@@ -374,6 +374,7 @@ def main(chk):
     c01.rule_sorted_on_every_refill(chk)
     # the particle id read back from a key is the one that was packed into it: every field of the keys is wide enough for its largest value (rule shared with C01)
     c01.rule_field_widths(chk)
+    c01.rule_tables_emptied(chk)
     chk.assume('that head/next, pid and key tables hold each particle exactly once is not decided (see C01)')
 
 
